@@ -234,9 +234,9 @@ def finish(mod, prop, tier, seed, total: Res, t0, extra_cov=None):
         kf = match_known(prop, rec, known)
         if kf is not None:
             known_hits += 1
-            lines.append(
-                f"KNOWN-FINDING: property={prop} {kf.get('what', check + ' ' + kind)}"
-            )
+            line = f"KNOWN-FINDING: property={prop} {kf.get('what', check + ' ' + kind)}"
+            if line not in lines:  # one line per listed finding
+                lines.append(line)
             continue
         # reproducibility: re-execute the case once more from its record
         reproduced = None
